@@ -50,35 +50,80 @@ func ruleFindConfig(c *Ctx, r *Repo, rule string) {
 		return
 	}
 	c.Func(funcKey(p, fd))
-	ok := false
-	for _, s := range fd.Body.List {
-		outer, isFor := s.(*ast.ForStmt)
-		if !isFor {
-			continue
+	info := p.TypesInfo
+	fc := newFuncCanon(info, fd)
+	// X = X.Parent(): returns the advanced variable
+	advance := func(n ast.Node) types.Object {
+		as, isAssign := n.(*ast.AssignStmt)
+		if !isAssign || as.Tok != token.ASSIGN || len(as.Lhs) != 1 || len(as.Rhs) != 1 {
+			return nil
 		}
-		// the outer loop walks up: its body assigns X = X.Parent()
-		walks := false
-		var names *ast.RangeStmt
-		for _, b := range outer.Body.List {
-			switch x := b.(type) {
-			case *ast.AssignStmt:
-				if len(x.Lhs) == 1 && len(x.Rhs) == 1 && types.ExprString(x.Rhs[0]) == types.ExprString(x.Lhs[0])+".Parent()" {
-					walks = true
-				}
-			case *ast.RangeStmt:
-				if cl, isLit := x.X.(*ast.CompositeLit); isLit && len(cl.Elts) >= 1 {
-					names = x
-				}
+		l, isID := as.Lhs[0].(*ast.Ident)
+		call, isCall := ast.Unparen(as.Rhs[0]).(*ast.CallExpr)
+		if !isID || !isCall || !strings.HasSuffix(calleeName(info, call), "pathlib.Path).Parent") {
+			return nil
+		}
+		if sel, isSel := call.Fun.(*ast.SelectorExpr); isSel {
+			if x, isX := ast.Unparen(sel.X).(*ast.Ident); isX && info.Uses[x] == info.Uses[l] {
+				return info.Uses[l]
 			}
 		}
-		if walks && names != nil {
-			// inside: first existing candidate in the current directory is returned
-			s := nodeString(names.Body)
-			if strings.Contains(s, ".Join(") && strings.Contains(s, ".Exists()") {
-				ok = true
-			}
-		}
+		return nil
 	}
+	ok := false
+	ast.Inspect(fd.Body, func(n ast.Node) bool {
+		outer, isFor := n.(*ast.ForStmt)
+		if !isFor || ok {
+			return true
+		}
+		// inner loops over the candidate names: contain <dir>.Join(..).Exists() and a return
+		var inner []ast.Stmt
+		ast.Inspect(outer.Body, func(m ast.Node) bool {
+			switch m.(type) {
+			case *ast.RangeStmt, *ast.ForStmt:
+				probes, returns := false, false
+				ast.Inspect(m, func(k ast.Node) bool {
+					switch y := k.(type) {
+					case *ast.CallExpr:
+						if strings.HasSuffix(calleeName(info, y), "pathlib.Path).Exists") && strings.Contains(fc.E(y), ".Join<(github.com/chigopher/pathlib.Path).Join>(") {
+							probes = true
+						}
+					case *ast.ReturnStmt:
+						returns = true
+					}
+					return true
+				})
+				if probes && returns {
+					inner = append(inner, m.(ast.Stmt))
+				}
+				return false
+			}
+			return true
+		})
+		if len(inner) != 1 {
+			return true
+		}
+		// the directory advances once per outer iteration, after (outside) the loop over the names
+		var dir types.Object
+		insideInner := false
+		if outer.Post != nil {
+			dir = advance(outer.Post)
+		}
+		ast.Inspect(outer.Body, func(m ast.Node) bool {
+			if o := advance(m); o != nil {
+				if m.Pos() >= inner[0].Pos() && m.End() <= inner[0].End() {
+					insideInner = true
+				} else if m.Pos() > inner[0].End() {
+					dir = o
+				}
+			}
+			return true
+		})
+		if dir != nil && !insideInner {
+			ok = true
+		}
+		return true
+	})
 	c.Check(ok, rule, "FindConfig|nearest-directory-first", r.Pos(fd.Pos()), "for each directory upwards: try every config file name, return the first that exists", "FindConfig does not try all config file names in the current directory before moving to the parent: a config file in an ancestor directory can win over the one next to the sources")
 }
 
@@ -262,9 +307,23 @@ R19.6 what migrate writes is loadable: yaml and koanf names agree for every conf
 	fcm := newFuncCanon(info, mc)
 	const v3p, v2p = "*ARG3.", "ARG2."
 	seenDirect, seenTD := map[string]bool{}, map[string]bool{}
+	funcs := pkgFuncs(cmdp)
+	isTDSetter := func(fd *ast.FuncDecl) bool { return isTemplateDataSetter(info, fd) }
 	var walk func(list []ast.Stmt, guards []string)
 	walk = func(list []ast.Stmt, guards []string) {
 		for _, s := range list {
+			if es, ok := s.(*ast.ExprStmt); ok {
+				// setter(v3, "key", value) counts as v3.TemplateData["key"] = value
+				if call, ok := es.X.(*ast.CallExpr); ok && len(call.Args) == 3 {
+					if fn := calleeFunc(info, call); fn != nil && isTDSetter(funcs[fn]) && fcm.E(call.Args[0])+"." == v3p {
+						s = &ast.AssignStmt{
+							Lhs:    []ast.Expr{&ast.IndexExpr{X: &ast.SelectorExpr{X: call.Args[0], Sel: ast.NewIdent("TemplateData")}, Index: call.Args[1]}},
+							TokPos: call.Pos(), Tok: token.ASSIGN,
+							Rhs: []ast.Expr{call.Args[2]},
+						}
+					}
+				}
+			}
 			switch x := s.(type) {
 			case *ast.IfStmt:
 				walk(x.Body.List, append(append([]string{}, guards...), fcm.E(x.Cond)))
@@ -551,6 +610,12 @@ func ruleMigrateRun(c *Ctx, r *Repo, cmdp *packages.Package) {
 		mc := FuncDecl(cmdp, "migrateConfig")
 		fcs := newFuncCanon(info, mc)
 		ast.Inspect(mc.Body, func(n ast.Node) bool {
+			if call, ok := n.(*ast.CallExpr); ok && len(call.Args) == 3 {
+				if fn := calleeFunc(info, call); fn != nil && isTemplateDataSetter(info, pkgFuncs(cmdp)[fn]) && fcs.E(call.Args[0]) == "*ARG3" {
+					key := strings.Trim(fcs.E(call.Args[1]), `"`)
+					c.Check(props[key], "R19.6", "migrateConfig|schema-key|"+key, r.Pos(call.Pos()), "template-data."+key+" is a property of the "+tmpl+" schema", fmt.Sprintf("migrate writes template-data[%q], which the %s schema (additionalProperties: false) rejects: the migrated file fails validation when mocks are generated", key, tmpl))
+				}
+			}
 			if as, ok := n.(*ast.AssignStmt); ok && len(as.Lhs) == 1 {
 				lhs := fcs.E(as.Lhs[0])
 				if strings.HasPrefix(lhs, "*ARG3.TemplateData[\"") {
@@ -579,4 +644,24 @@ func typeShape(info *types.Info, e ast.Expr) string {
 		}
 	}
 	return types.ExprString(e)
+}
+
+// isTemplateDataSetter: a function of the package that, on every path, stores its third argument under
+// its second in the TemplateData of the config passed first and stores nothing else.
+func isTemplateDataSetter(info *types.Info, fd *ast.FuncDecl) bool {
+	if fd == nil || fd.Recv != nil || fd.Type.Params.NumFields() != 3 {
+		return false
+	}
+	paths, _ := enumerateFunc(info, fd)
+	for _, p := range paths {
+		if hasStep(p, "store ARG0.TemplateData[ARG1] = ARG2") != 1 {
+			return false
+		}
+		for _, st := range p.Steps {
+			if strings.HasPrefix(st, "store ") && !strings.HasPrefix(st, "store ARG0.TemplateData") {
+				return false
+			}
+		}
+	}
+	return len(paths) > 0
 }
